@@ -154,7 +154,25 @@ def _serve(rfd, wfd, base_tmp, reqpath, respath):
         pid = os.fork()
         if pid == 0:
             _child(req, respath, base_tmp)
-        os.waitpid(pid, 0)
+        # a reference that takes longer than the limit is given up: the -d
+        # report enumerates 2^n swap combinations and can take for ever with
+        # loose coupling thresholds on a large structure
+        import time as _t
+        limit = float(req.get('time_limit') or REF_TIME_LIMIT)
+        t0 = _t.monotonic()
+        while True:
+            done, _status = os.waitpid(pid, os.WNOHANG)
+            if done:
+                break
+            if _t.monotonic() - t0 > limit:
+                try:
+                    os.kill(pid, 9)
+                except OSError:
+                    pass
+                os.waitpid(pid, 0)
+                write_blob(respath, pickle.dumps(('slow', None), protocol=4))
+                break
+            _t.sleep(0.02 if _t.monotonic() - t0 < 2 else 0.25)
         _token(wfd)
 
 
@@ -171,6 +189,7 @@ def _import_all():
 
 
 CANONICAL_HASHSEED = '0'
+REF_TIME_LIMIT = 30.0     # seconds of real time for one reference computation
 
 
 class RefServer:
@@ -217,6 +236,10 @@ class RefServer:
         except (OSError, EOFError):
             status, res = 'harness-error', 'reference child died'
 
+        if status == 'slow':
+            res = {'slow': True}
+            self.cache[key] = res
+            return res
         if status != 'ok':
             raise RuntimeError('reference failed: ' + str(res))
         self.computed += 1
